@@ -1044,13 +1044,28 @@ func (f *Frame) quantifier(forall bool, args [][]*Term, in ssa.Instruction) *Ter
 	if f.stub != nil && f.stub.oldCalls[in] {
 		entry.mem = f.stub.old
 	}
+	nf := len(f.u.facts)
 	res, _ := sub.run(entry)
 	body := res[0]
+	// facts produced while the body was evaluated that mention the bound variable (definitional
+	// facts of substrings, lengths, ...) are valid for every index: they move inside the
+	// quantifier as hypotheses of the body instead of staying behind as open global facts
+	var local []*Term
+	kept := f.u.facts[:nf:nf]
+	for _, t := range f.u.facts[nf:] {
+		if t.hasBV {
+			local = append(local, t)
+			delete(f.u.factSeen, t.id)
+		} else {
+			kept = append(kept, t)
+		}
+	}
+	f.u.facts = kept
 	rng := tb.And(tb.Sle(args[0][0], bv), tb.Slt(bv, args[1][0]))
 	if forall {
-		return tb.Forall([]*Term{bv}, tb.Implies(rng, body))
+		return tb.Forall([]*Term{bv}, tb.Implies(tb.And(append([]*Term{rng}, local...)...), body))
 	}
-	return tb.Exists([]*Term{bv}, tb.And(rng, body))
+	return tb.Exists([]*Term{bv}, tb.And(append([]*Term{rng, body}, local...)...))
 }
 
 // quantInstance evaluates the body of a quantifier closure for one index term.
